@@ -82,6 +82,21 @@ def scen_index(spec, L):
         elif not ex:
             R.fail("setitem(int):%s:no_raise_out_of_range" % spec.name, L=L, i=i)
         check_same(spec, b, m2, "setitem(int):%s:wrong_element" % spec.name, L=L, i=i)
+        # the same store with the element given as a tuple of its components (a separate overload for vector arrays)
+        if spec.comps and ok:
+            b = spec.array(ks)
+            m2 = list(model)
+            new = spec.mk(43 + (i % 5))
+            ex = raises(lambda: b.__setitem__(i, canon(new)))
+            if ex and ("ArgumentError" in ex or "TypeError" in ex):
+                R.cls("tuple_store_not_offered")
+            else:
+                R.cls("tuple_store")
+                if ex:
+                    R.fail("setitem(int,tuple):%s:raised_in_range" % spec.name, L=L, i=i, exc=ex)
+                else:
+                    m2[i] = canon(new)
+                check_same(spec, b, m2, "setitem(int,tuple):%s:wrong_element" % spec.name, L=L, i=i)
     # huge indices
     for i in (2 ** 31 - 1, -2 ** 31, 2 ** 62, -2 ** 62):
         R.ev()
@@ -181,6 +196,19 @@ def scen_mask(spec, L):
                 m2[i] = canon(new)
             check_same(spec, arr, m2, "maskedref.setitem(int):%s:wrong_element" % spec.name, L=L, mask=mvals)
             check_same(spec, ref, [m2[i] for i in sel], "maskedref.setitem(int):%s:ref_disagrees" % spec.name, L=L, mask=mvals)
+            if spec.comps:
+                for j, i in enumerate(sel):
+                    new = spec.mk(65 + j)
+                    ex = raises(lambda: ref.__setitem__(j, canon(new)))
+                    if ex and ("ArgumentError" in ex or "TypeError" in ex):
+                        R.cls("tuple_store_not_offered")
+                        break
+                    R.cls("maskedref_tuple_store")
+                    if ex:
+                        R.fail("maskedref.setitem(int,tuple):%s:raised" % spec.name, L=L, mask=mvals, j=j, exc=ex)
+                    else:
+                        m2[i] = canon(new)
+                check_same(spec, arr, m2, "maskedref.setitem(int,tuple):%s:wrong_element" % spec.name, L=L, mask=mvals)
             # slices of a masked reference (copy)
             for s in (slice(None), slice(None, None, -1), slice(1, None, 2), slice(-2, None), slice(None, -1)):
                 R.ev()
